@@ -79,6 +79,16 @@ def run(ctx):
                     if op_local(t['args'][1]) in tainted and wrc[0] in solver.derived_from(op_local(t['args'][0])):
                         pushes.append(bi)
             ok = bool(pushes) and all(solver.exists_path([c], [p]) for p in pushes[:1])
+            if fn == 'create_sn_var':
+                bad_src = []
+                for pb_ in pushes:
+                    if v not in solver.derived_from(op_local(solver.term[pb_]['args'][1]), through_mutation=False):
+                        continue   # a push of another variable (e.g. the reservation variable, which does reserve the free amount)
+                    fs_ = local_field_sources(solver, op_local(solver.term[pb_]['args'][1]), through_mutation=False)
+                    if 'free_resources' in fs_:
+                        bad_src.append(pb_)
+                ctx.ob('R05.2', 'create_sn_var|coefficient not from free resources', not bad_src,
+                       'the amount a placement consumes in the worker constraint comes from the request (or, for `all`, from the TOTAL worker resources); a coefficient read from the free summary shrinks with load and lets `all` overbook', solver.loc(bad_src[0]) if bad_src else solver.loc(c))
             ctx.ob('R05.2', f'{fn}|pushed', ok, f'variable of {fn} is pushed into worker_res_constraint', solver.loc(c))
             # constraint reached: from the push, every path to the next outer-loop iteration / exit passes add_constraint
             #   (add_constraint is inside `for c in worker_res_constraint` guarded by !free.is_max() && !c.is_empty(): mode may)
